@@ -593,6 +593,10 @@ def r8_released_decision(chk: Check):
     from .c03 import init_tasks_attached_first
 
     init_tasks_attached_first(chk)
+    # the pre-tasks that enter the full identifier are collected across task links (released behaviour, = C03.R14)
+    from .c03 import r14_pretasks_cross_tasks
+
+    r14_pretasks_cross_tasks(chk)
 
 
 RULES = [
